@@ -297,6 +297,12 @@ def finish(res, tier, seed, rule, required=(), level="exploration", assumptions=
            evaluations_stat="cases", extra=None):
     """Apply known-findings, write evidence, print verdict lines, return exit code."""
     prop = res.prop
+    # the evidence level is the category the check registers in MANIFEST.json (REG in its module)
+    try:
+        import importlib
+        level = importlib.import_module("checks." + prop).REG.get("category", level)
+    except Exception:
+        pass
     fnd = Findings()
     os.makedirs(os.path.join(VERIF, "replay"), exist_ok=True)
     unknown = {}
